@@ -2,6 +2,7 @@
    the wrappers, Struct, ListValue, Value and Empty.  Definitions only.
 
    json_core2 S nm     every message type of the table is ordinary (code 0) or one of
+                         1 Any       : string type_url = 1, bytes value = 2, implicit presence
                          2 Timestamp, 3 Duration : int64 seconds = 1, int32 nanos = 2, implicit presence
                          4 wrapper   : exactly one field, number 1, implicit presence, scalar (not enum)
                          5 Struct    : exactly one field, number 1, map<string, Value>
@@ -14,11 +15,13 @@
    json_valid2         json_valid (Json/JsonMsgValid.v) plus, for a Value: exactly one member is set and
                        a number_value is finite; for a Timestamp / Duration: the range conditions of
                        marshalTimestamp / marshalDuration; for a FieldMask: every path is a valid full name
-                       whose lower-camel form converts back to it.
+                       whose lower-camel form converts back to it; for an Any: empty, or a type URL that
+                       resolves in the table and value bytes that are the deterministic encoding of
+                       representable content of that type without unknown fields.
    codec_ok cd         round-trip hypotheses on the string forms that C22 / C23 own (base64, Timestamp,
                        Duration). *)
 From Coq Require Import List NArith ZArith Bool.
-From PB Require Import Base.PBytes Wire.WireModel Msg.MsgSchema Msg.MsgValue Msg.MsgUtf8 Msg.MsgValid.
+From PB Require Import Base.PBytes Wire.WireModel Msg.MsgSchema Msg.MsgValue Msg.MsgUtf8 Msg.MsgEnc Msg.MsgDec Msg.MsgValid.
 From PB Require Import Json.RtSchema Json.JsonMsgModel Json.JsonMsgValid Text.TextMsgValid.
 Import ListNotations.
 Open Scope N_scope.
@@ -93,6 +96,18 @@ Definition secs_nanos_shape (fps : list fpair) : bool :=
   | _ => false
   end.
 
+(* Any: string type_url = 1; bytes value = 2; (implicit presence) *)
+Definition jany_shape (fps : list fpair) : bool :=
+  match fps with
+  | [(f1, n1); (f2, n2)] =>
+    (f_num f1 =? 1) && (f_num f2 =? 2) && plain_field f1 && plain_field f2
+    && match f_card f1, f_kind f1, f_card f2, f_kind f2 with
+       | CImp, KS SkString, CImp, KS SkBytes => true
+       | _, _, _, _ => false
+       end
+  | _ => false
+  end.
+
 (* FieldMask: repeated string paths = 1 *)
 Definition fieldmask_shape (fps : list fpair) : bool :=
   match fps with
@@ -114,6 +129,7 @@ Definition json_core2 (S : schema) (nm : names) : bool :=
     no_special_groups nm fps &&
     match wkt_of nm tid with
     | 0 => true
+    | 1 => jany_shape fps
     | 2 | 3 => secs_nanos_shape fps
     | 4 => wrapper_shape fps
     | 5 => struct_shape nm fps
@@ -135,14 +151,42 @@ Definition value_extra (v : value) : bool :=
   | _ => false
   end.
 
-Fixpoint json_valid2 (strict : bool) (eu : bool) (S : schema) (nm : names) (fuel : nat) (tid : nat) (v : value) : bool :=
+(* an Any: empty, or a resolvable type URL with value bytes that are the deterministic encoding of
+   representable content without unknown fields ([recv]: one level down; an embedded ordinary
+   message is written at the level of the Any itself) *)
+Section AnyValid.
+  Variable strict : bool.
+  Variable eu : bool.
+  Variable S : schema.
+  Variable nm : names.
+  Variable lim : nat.
+  Variable recv : nat -> value -> bool.
+
+  Definition jvalid_any (fs : fields) : bool :=
+    if negb (has_field fs 1) then negb (has_field fs 2)
+    else
+      match resolve_url nm (get_bytes fs 1) with
+      | None => false
+      | Some t =>
+        match msg_decode false S lim t (get_bytes fs 2) with
+        | MsgDec.DErr _ => false
+        | MsgDec.DOk em =>
+          Nat.ltb t (length S)
+          && (if is_special_wkt (wkt_of nm t) then recv t em else jvalid_body strict eu S nm recv t em)
+          && bs_eqb (msg_encode S t (strip_unknown em)) (get_bytes fs 2)
+        end
+      end.
+End AnyValid.
+
+Fixpoint json_valid2 (strict : bool) (eu : bool) (S : schema) (nm : names) (lim : nat) (fuel : nat) (tid : nat) (v : value) : bool :=
   match fuel with
   | O => false
   | Datatypes.S f =>
     Nat.ltb tid (length S)
-    && jvalid_body strict eu S nm (json_valid2 strict eu S nm f) tid v
+    && jvalid_body strict eu S nm (json_valid2 strict eu S nm lim f) tid v
     && (if wkt_of nm tid =? 7 then value_extra v else true)
     && match wkt_of nm tid, v with
+       | 1, VMsg fs _ => jvalid_any strict eu S nm lim (json_valid2 strict eu S nm lim f) fs
        | 2, VMsg fs _ => ts_in_range (get_z fs 1) (get_z fs 2)
        | 3, VMsg fs _ => dur_in_range (get_z fs 1) (get_z fs 2)
        | 8, VMsg fs _ => forallb (fun x => match x with VS (SBy p) => fm_path_ok p | _ => false end) (msg_fget fs 1)
